@@ -189,6 +189,43 @@ Theorem C09_copy_key_frame : forall t n b x, kbuf_write b x (fst (mt_copy t n)) 
 Proof. exact mt_copy_key_frame. Qed.
 Print Assumptions C09_copy_key_frame.
 
+(* ---- ... and the userdata texts of the stock serializer included ---- *)
+(* [uanns]: per node, the text given to json_object_userdata_to_json_string, where it is stored
+   (a block the node releases / caller memory) and whether a delete function is registered.
+   json_object_copy_serializer_data always strdup's: every text of the copy is a fresh block. *)
+Theorem C09_deep_copy_disjoint_all : forall s n,
+  (forall i, In i (image_addrs s) -> i < n) ->
+  (forall i, In i (image_addrs s) -> In i (image_addrs (fst (full_copy s n))) -> False) /\
+  (forall st, In st (key_stores (fst s) ++ ud_stores (snd s)) ->
+              In st (key_stores (fst (fst (full_copy s n))) ++ ud_stores (snd (fst (full_copy s n)))) -> False) /\
+  borrowed (fst (fst (full_copy s n))) = [] /\
+  (forall st, In st (ud_stores (snd (fst (full_copy s n)))) -> is_own st).
+Proof. exact deep_copy_disjoint_all. Qed.
+Print Assumptions C09_deep_copy_disjoint_all.
+
+(* same texts and delete functions, hence the same output of the stock serializer *)
+Theorem C09_userdata_copy_same_text : forall a n, ud_texts (fst (copy_uanns a n)) = ud_texts a.
+Proof. exact userdata_copy_same_text. Qed.
+Print Assumptions C09_userdata_copy_same_text.
+
+(* the caller rewriting / freeing any of its buffers is invisible through the copy *)
+Theorem C09_userdata_copy_owned : forall a n b x, ubuf_write b x (fst (copy_uanns a n)) = fst (copy_uanns a n).
+Proof. exact userdata_copy_owned. Qed.
+Print Assumptions C09_userdata_copy_owned.
+
+(* as written (dst->_user_delete = src->_user_delete): the texts duplicated from nodes without a
+   delete function are library blocks that no node releases — one per such node *)
+Theorem C09_userdata_copy_unreleased : forall a n,
+  length (unreleased (fst (copy_uanns a n))) = null_delete_count a.
+Proof. exact userdata_copy_unreleased. Qed.
+Print Assumptions C09_userdata_copy_unreleased.
+
+(* "the copy releases everything it allocated" is therefore refuted by a one-node witness *)
+Theorem C09_copy_releases_everything_refuted :
+  exists a n, unreleased (fst (copy_uanns a n)) <> [].
+Proof. exists [Some (mk_ud [60] (KBorrowed 0) false)], 5. vm_compute. discriminate. Qed.
+Print Assumptions C09_copy_releases_everything_refuted.
+
 (* ---- process-wide settings ---- *)
 (* json_global_set_string_hash / json_c_set_serialization_double_format calls inserted at any
    point of the histories change neither the trees reached nor (the settings being a
@@ -310,3 +347,12 @@ Theorem C09_nonvacuous_keys :
   mt_erase (kbuf_write 0 [90] ex_msrc) <> mt_erase ex_msrc /\
   kbuf_write 0 [90] cpy = cpy.
 Proof. exact ex_keys. Qed.
+
+Theorem C09_nonvacuous_userdata :
+  let cpy := fst (full_copy (ex_msrc, ex_uanns) 10) in
+  ud_stores (snd cpy) = [KOwn 18; KOwn 19] /\
+  ud_texts (snd cpy) = ud_texts ex_uanns /\
+  ud_texts (ubuf_write 7 [90] ex_uanns) <> ud_texts ex_uanns /\
+  ubuf_write 7 [90] (snd cpy) = snd cpy /\
+  unreleased (snd cpy) = [19].
+Proof. exact ex_userdata. Qed.
